@@ -329,7 +329,7 @@ CHECKS = {
                  "held PENDING or EXCLUSIVE, or RESERVED with a journal on disk. Distinct = fingerprint of the spec."),
         "assumptions": ["system libsqlite3 (3.40.1) unix VFS with POSIX advisory locks is the writer"],
         "min_nontrivial": {"quick": 150, "thorough": 3000},
-        "required_classes": ["state:UNLOCKED", "state:SHARED", "state:RESERVED", "state:RESERVED+journal", "state:PENDING", "state:EXCLUSIVE", "state:EXCLUSIVE+journal+spilled", "sync-off=true", "sync-off=false"],
+        "required_classes": ["state:UNLOCKED", "state:SHARED", "state:RESERVED", "state:RESERVED+journal", "state:PENDING", "state:EXCLUSIVE", "state:EXCLUSIVE+journal+spilled", "sync-off=true", "sync-off=false", "state:PENDING+commit-blocked-by-our-own-handle"],
         "timeout": {"quick": 400, "thorough": 2400},
         "jobs": [
             job("states", "c07", ["TestC07LockStates"], 250, 5000, 3, 10),
@@ -347,7 +347,7 @@ CHECKS = {
                  "plus database/sql result sets read for k rows then closed / cancelled / drained. Non-trivial = at least one side action ran. Distinct = fingerprint of the spec."),
         "assumptions": ["Linux POSIX record locks; system libsqlite3 (3.40.1) is the writer"],
         "min_nontrivial": {"quick": 150, "thorough": 3000},
-        "required_classes": ["exit:normal", "exit:stop", "exit:error-column", "exit:fault", "exit:panic", "side:commit-attempt", "side:peer-hold", "side:other-file", "side:same-process-read", "op:IndexedSelect-wr", "driver:cancel", "writer:open-txn", "writer:hot-journal", "writer:raw-exclusive", "concurrent:procs="],
+        "required_classes": ["exit:normal", "exit:stop", "exit:error-column", "exit:fault", "exit:panic", "side:commit-attempt", "side:peer-hold", "side:other-file", "side:same-process-read", "side:nested-call-inside-callback", "op:IndexedSelect-wr", "driver:cancel", "writer:open-txn", "writer:hot-journal", "writer:raw-exclusive", "concurrent:procs="],
         "timeout": {"quick": 400, "thorough": 2400},
         "jobs": [
             job("held", "c06", ["TestC06Held"], 220, 4000, 3, 10),
@@ -357,6 +357,7 @@ CHECKS = {
     },
     "C09": {
         "level": "fault_enumeration",
+        "tools": ["peer"],
         "ctools": [
             {"src": "crashshim.c", "out": "crashshim.so", "args": ["-shared", "-fPIC", "-O1"], "libs": ["-ldl"]},
             {"src": "crashwriter.c", "out": "crashwriter", "args": ["-O1"], "libs": ["/usr/lib/x86_64-linux-gnu/libsqlite3.so.0"], "optional": True},
